@@ -491,6 +491,26 @@ PSI_ROTATED_COPY = [(SOLVER, "        z = U * gamma**2 / 2 * psi\n", "        d_
                     (SOLVER, "                w = z * abs_sq_psi + U * (\n                    psi\n                    + (dt / u)\n                    * xp.sqrt(1 + gamma**2 * abs_sq_psi)\n                    * ((epsilon - abs_sq_psi) * psi + psi_laplacian @ psi)\n                )\n", "                w = z * abs_sq_psi + psi_rot + U * d_psi\n")]
 CORPUS["C02"] += [B("gauge rotation applied to psi in place", "R02.8", *PSI_INPLACE), E("gauge rotation applied to a fresh array", *PSI_ROTATED_COPY)]
 
+
+# third round ---------------------------------------------------------------------------------------------------------------
+ADAPT_OFF = (OPTIONS, "            raise SolverOptionsError(\"dt_init must be less than or equal to dt_max.\")\n", "            raise SolverOptionsError(\"dt_init must be less than or equal to dt_max.\")\n        if self.dt_init == self.dt_max:\n            self.adaptive = False\n")
+CORPUS["C12"] += [B("validate() switches adaptivity off when dt_init == dt_max", "R12.6", ADAPT_OFF)]
+CORPUS["C19"] += [B("validate() rewrites an option", "R19.4", ADAPT_OFF)]
+CAST_OPT = (SOLN, "                if optional and field.name not in options_kwargs:\n                    options_kwargs[field.name] = None\n", "                if optional and field.name not in options_kwargs:\n                    options_kwargs[field.name] = None\n                elif field.name in options_kwargs and field.name == \"terminal_psi\":\n                    options_kwargs[field.name] = float(options_kwargs[field.name])\n")
+CORPUS["C14"] += [B("restored option cast with float()", "R14.11", CAST_OPT)]
+PROBE_OLD = "            points = [\n                affinity.scale(Point(xy), xfact=xfact, yfact=yfact, origin=origin)\n                for xy in device.probe_points\n            ]\n            device.probe_points = np.concatenate(\n                [point.coords for point in points], axis=0\n            )\n"
+PROBE_INPLACE = (DEVICE, PROBE_OLD, "            for i, xy in enumerate(device.probe_points):\n                point = affinity.scale(Point(xy), xfact=xfact, yfact=yfact, origin=origin)\n                device.probe_points[i] = point.coords[0]\n")
+PROBE_ARRAY = (DEVICE, PROBE_OLD, "            scaled = [affinity.scale(Point(xy), xfact=xfact, yfact=yfact, origin=origin).coords[0] for xy in device.probe_points]\n            device.probe_points = np.array(scaled, dtype=float)\n")
+CORPUS["C18"] += [B("scaled probe points written back row by row", "R18.9", PROBE_INPLACE), E("scaled probe points rebound to a new float array", PROBE_ARRAY)]
+ZS_OLD = "            zs = zs * np.ones(len(positions))\n"
+CORPUS["C20"] += [B("heights created with full_like of the positions", "R20.10", (SOLN, ZS_OLD, "            zs = np.full_like(positions[:, 0], zs)\n")),
+                  B("heights stored into zeros_like of the positions", "R20.10", (SOLN, ZS_OLD, "            heights = np.zeros_like(positions[:, 0])\n            heights[:] = zs\n            zs = heights\n")),
+                  E("heights created with an explicit float dtype", (SOLN, ZS_OLD, "            zs = np.full_like(positions[:, 0], zs, dtype=float)\n")),
+                  E("heights as ones_like times the value", (SOLN, ZS_OLD, "            zs = zs * np.ones_like(positions[:, 0])\n"))]
+CLEAR_OLD = "        if isinstance(self.right, Parameter):\n            self.right._clear_cache()\n        if isinstance(self.left, Parameter):\n            self.left._clear_cache()\n"
+CORPUS["C16"] += [B("cache clearing stops at a numeric operand", "R16.10", (PARAM, CLEAR_OLD, "        for operand in (self.left, self.right):\n            if not isinstance(operand, Parameter):\n                break\n            operand._clear_cache()\n")),
+                  E("cache clearing as a loop with continue", (PARAM, CLEAR_OLD, "        for operand in (self.left, self.right):\n            if not isinstance(operand, Parameter):\n                continue\n            operand._clear_cache()\n"))]
+
 # ---------------------------------------------------------------------------
 # generic behaviour-preserving transformations of the anchor functions
 # ---------------------------------------------------------------------------
